@@ -189,7 +189,12 @@ func (ms *Modules) resolveIdentities() []error {
 			newValues = addChildren(j, newValues)
 		}
 		sort.SliceStable(newValues, func(j, k int) bool {
-			return newValues[j].Name < newValues[k].Name
+			if newValues[j].Name != newValues[k].Name {
+				return newValues[j].Name < newValues[k].Name
+			}
+			// Same name in different modules: the order must not
+			// depend on the order of map iteration.
+			return newValues[j].modulePrefixedName() < newValues[k].modulePrefixedName()
 		})
 		for _, v := range newValues {
 			if v == i.Identity {
